@@ -180,6 +180,26 @@ func c01Verdicts(ctx *core.Ctx, cmds map[string]*ssa.Function) {
 				func(s bool) atomFn { return boolAtom(isMatch, s) }, nil, false, implications{true, true, true, true, false})
 		}
 	}
+	// (e2) -count=N is exact: all matches are counted and any difference fails
+	if f := p.Func("testscript", "scriptMatch"); f != nil {
+		g := graph(p, f)
+		calls := g.Calls("(*regexp.Regexp).FindAllString", "(*regexp.Regexp).FindAllStringIndex", "(*regexp.Regexp).FindAllIndex")
+		if len(calls) == 0 {
+			ctx.Bad("V8", "testscript.scriptMatch#count-exact", f.Pos(), "-count=N: no counting of matches found")
+		}
+		for k, c := range calls {
+			lim, isK := ssax.ConstInt(c.Call.Args[len(c.Call.Args)-1])
+			all := isK && lim < 0
+			// the Fatalf that reports the mismatch is on a != edge between the count and N
+			neq := false
+			for _, fc := range g.Calls(tsFatalf) {
+				if cmpFact(g.FactsAtInstr(fc), token.NEQ, isLenOf(c), anyVal) {
+					neq = true
+				}
+			}
+			ctx.Check(all && neq, "V8", "testscript.scriptMatch#count-exact"+itoa(k+1), c.Pos(), "-count=N counts every match (limit < 0: %v) and fails on any difference (count != N: %v); a capped count accepts too many matches", all, neq)
+		}
+	}
 	// (f) doCmdCmp
 	if f := ctx.Need("V8", "testscript", "(*TestScript).doCmdCmp"); f != nil {
 		g := graph(p, f)
